@@ -330,6 +330,15 @@ impl<'a, 'b> SchemerContext<'a, 'b> {
                 ProperSubtype::Boolean(v) => {
                     acc.insert(Runtype::const_(RuntypeConst::Bool(*v)));
                 }
+                // "every number but these" has no runtime validator: like the negated members of an intersection
+                // (remove_nots_of_intersections_and_empty_of_union) the exclusion is dropped, which is also what
+                // TypeScript answers for `Exclude<number, 1>`
+                ProperSubtype::Number { allowed: false, .. } => {
+                    acc.insert(Runtype::number());
+                }
+                ProperSubtype::String { allowed: false, .. } => {
+                    acc.insert(Runtype::string());
+                }
                 ProperSubtype::Number { allowed, values } => {
                     for h in values {
                         match h {
